@@ -45,6 +45,7 @@ class Gen:
         self.counter = 0
         self.dict_prims_with_defaults = False
         self.json_safe = False
+        self._forced = None
 
     # ------------------------------------------------------------------ schemas (IR)
     def fresh(self, prefix):
@@ -53,6 +54,10 @@ class Gen:
 
     def fresh_named(self, prefix, tns):
         """A simple name for a new named type in namespace tns: now and then the simple name of an existing type of another namespace."""
+        if self._forced:
+            n = self._forced[1]
+            self._forced = None
+            return n
         if self.use_ns and self.r.random() < 0.12:
             cands = [d["full"].rsplit(".", 1)[-1] for d in self.defs.values() if d["ns"] != tns]
             cands = [s for s in cands if self.full(tns, s) not in self.defs and not s.startswith("Al")]
@@ -79,7 +84,61 @@ class Gen:
         self.counter = 0
         kinds = ["record"] * 5 + ["union", "array", "map", "enum", "fixed", "prim"]
         k = top or self.r.choice(kinds)
+        if k == "record" and self.use_ns and self.r.random() < 0.05:
+            return self.shadow_schema()
         return self.typ(self.max_depth, "", force=k, under_union=False, safe_rec=False)
+
+    def shadow_schema(self):
+        """Two types with one simple name, one in the null namespace and one in a namespace, and references to the latter from
+        inside that namespace (a bare name there means the namespaced type, whatever the null namespace holds)."""
+        r = self.r
+        ns = r.choice([n for n in NS_POOL if n])
+        simple = "N%d" % r.randint(1, 9)
+
+        def named(tns):
+            self._forced = (tns, simple)
+            return self.typ(1, tns, force=r.choice(["enum", "fixed", "record"]))
+
+        def rec(full, tns):
+            d = {"k": "record", "full": full, "ns": tns, "fields": [], "aliases": []}
+            self.defs[full] = d
+            self.open.append(full)         # never closed: the frame records are not referred to
+            return d
+
+        def fld(name, t):
+            return {"name": name, "type": t, "hasdef": False, "default": None, "aliases": []}
+
+        def use(full):
+            t = {"k": "ref", "full": full}
+            w = r.random()
+            if w < 0.2:
+                return {"k": "array", "items": t}
+            if w < 0.4:
+                return {"k": "union", "br": [{"k": "prim", "name": "null"}, t]}
+            return t
+
+        outer = rec("Outer", "")
+        inner = None
+        order = r.choice(["null-first", "ns-first"])
+        if order == "null-first":
+            x = named("")
+            outer["fields"].append(fld("x", x))
+        inner = rec(self.full(ns, "Inner"), ns)
+        p_ = named(ns)
+        inner["fields"].append(fld("p", p_))
+        outer["fields"].append(fld("y", inner))
+        if order == "ns-first":
+            x = named("")
+            outer["fields"].append(fld("x", x))
+            # the rest of Inner is rendered before x is defined, so add a second namespaced record after it
+            inner2 = rec(self.full(ns, "Inner2"), ns)
+            inner2["fields"].append(fld("q", use(p_["full"])))
+            outer["fields"].append(fld("y2", inner2))
+        else:
+            inner["fields"].append(fld("q", use(p_["full"])))
+        if r.random() < 0.5:
+            outer["fields"].append(fld("w", use(x["full"])))
+        return outer
 
     def typ(self, depth, ns, force=None, under_union=False, safe_rec=False):
         r = self.r
@@ -101,7 +160,7 @@ class Gen:
             refs = self.refable(ns, safe_rec)
             return {"k": "ref", "full": r.choice(refs)}
         if k == "enum":
-            tns = self.pick_ns(ns)
+            tns = self._forced[0] if self._forced else self.pick_ns(ns)
             full = self.full(tns, self.fresh_named("E", tns))
             syms = r.sample(SYMS, r.randint(1, 4))
             d = {"k": "enum", "full": full, "ns": tns, "syms": syms, "hasdef": r.random() < 0.3, "aliases": self.mk_aliases()}
@@ -109,7 +168,7 @@ class Gen:
             self.defs[full] = d
             return d
         if k == "fixed":
-            tns = self.pick_ns(ns)
+            tns = self._forced[0] if self._forced else self.pick_ns(ns)
             full = self.full(tns, self.fresh_named("F", tns))
             d = {"k": "fixed", "full": full, "ns": tns, "size": r.choice([0, 1, 2, 3, 16]), "aliases": self.mk_aliases()}
             if self.logical and r.random() < 0.4 and d["size"] > 0:
@@ -123,7 +182,7 @@ class Gen:
         if k == "union":
             return self.union(depth, ns)
         if k == "record":
-            tns = self.pick_ns(ns)
+            tns = self._forced[0] if self._forced else self.pick_ns(ns)
             full = self.full(tns, self.fresh_named("R", tns))
             d = {"k": "record", "full": full, "ns": tns, "fields": [], "aliases": self.mk_aliases()}
             self.defs[full] = d
